@@ -17,6 +17,11 @@ Correspondence against the Lean model `PgFdr.C19` (driver ops "header", "annotat
   `ProteinAnnotationsColumns.append_columns` on rows built from the file's identifiers (repeats,
   isoforms sharing a gene, decoys, unknown identifiers).
 
+* kinds "int" / "charclass": Python's `int()` of a PE field and Python's white space (`str.isspace`, what `rstrip()`
+  strips) against the model's `parseInt` / `isSpace` / `isIntSpace` / `digitValue` — generated literals and near misses
+  (signs, underscores, digits of other scripts, FS..US, NBSP / NEL) and, once per run, every code point.  The same shapes
+  occur in the PE fields of malformed headers and at the line ends of a share of the generated FASTA records.
+
 The oracle states the property on the composed fields (it never parses a header): the eight
 fields of every well-formed record, first record wins within a file, the gene-level switch at
 "more than half", and the three columns as distinct values in row order.
@@ -84,6 +89,52 @@ def expected_of_fields(f, rule, prefix=""):
     return e
 
 
+# ---- Python's white space and int() literals (what `line.rstrip()` strips and `int(PE field)` accepts) -------------------
+# str.isspace / str.rstrip(): 29 code points (CPython 3.12, Unicode 15.0); int() skips the same set around the literal EXCEPT
+# U+001C..U+001F (they are < 127, so they are not folded to ' ', and C isspace() does not know them).  The model's tables
+# (`C19.isSpace`, `C19.isIntSpace`, `C19.digitZeros`) are compared with the running Python over EVERY code point by the
+# case kind "charclass" (corpus/C19/charclass.json, replayed first on every check).
+PY_SPACE = [0x09, 0x0A, 0x0B, 0x0C, 0x0D, 0x1C, 0x1D, 0x1E, 0x1F, 0x20, 0x85, 0xA0, 0x1680] + list(range(0x2000, 0x200B)) + [0x2028, 0x2029, 0x202F, 0x205F, 0x3000]
+INT_WS = [chr(c) for c in PY_SPACE if c not in (0x1C, 0x1D, 0x1E, 0x1F, 0x20)]          # without the plain blank (it splits the header)
+NOT_INT_WS = ["\x1c", "\x1d", "\x1e", "\x1f"]
+TRAIL_WS = [chr(c) for c in PY_SPACE if c not in (0x0A, 0x0D)]                            # white space inside / at the end of a line of a file
+
+
+def trailing_ws(rng, counts=(1, 1, 2)):
+    """a run of Python white space ending a line; \\r only as the very last character (elsewhere it would end the line)"""
+    return "".join(rng.choice(TRAIL_WS) for _ in range(rng.choice(counts))) + ("\r" if rng.random() < 0.1 else "")
+DIGIT_ZEROS = [0x30, 0x30, 0x30, 0x660, 0x6F0, 0x966, 0xFF10, 0x1D7CE, 0x1D7D8, 0x1D7F6, 0x1E950, 0x1FBF0, 0x7C0, 0x11F50]
+NON_DIGITS = ["x", ".", "e", "\x7f", "é", "²", "Ⅷ", "½", "−", "٫", "〇", "一", "\u200b", "\ufeff"]    # isdigit()/isnumeric() but no decimal digit, zero-width, …
+
+
+def gen_int_literal(rng, blank_ok=False):
+    """a string shaped like an int() literal -- optional white space, sign, decimal digits of any script with single
+    underscores between them -- or a near miss (leading / trailing / double underscore, sign after blank, white space
+    inside, FS..US around, a character that is no decimal digit)"""
+
+    def digit():
+        return chr(rng.choice(DIGIT_ZEROS) + rng.randint(0, 9))
+
+    def ws():
+        pool = INT_WS + ([" "] if blank_ok else [])
+        return "".join(rng.choice(pool) for _ in range(rng.choice([0, 0, 0, 1, 1, 2])))
+
+    body = digit()
+    for _ in range(rng.choice([0, 0, 0, 1, 1, 2, 3, 6])):
+        body += ("_" if rng.random() < 0.3 else "") + digit()
+    s = ws() + rng.choice(["", "", "", "+", "-"]) + body + ws()
+    m = rng.random()
+    if m < 0.45:
+        return s
+    ins = rng.choice(["_", "_", "+", "-", rng.choice(NOT_INT_WS), rng.choice(INT_WS), rng.choice(NON_DIGITS), "__"] + ([" ", "\x00"] if blank_ok else []))
+    i = rng.choice([0, len(s), rng.randint(0, len(s))])
+    s = s[:i] + ins + s[i:]
+    if m > 0.9 and s:
+        j = rng.randrange(len(s))
+        s = s[:j] + s[j + 1 :]
+    return s
+
+
 def malformed_header(rng):
     f = gen_fields(rng)
     r = rng.random()
@@ -100,11 +151,12 @@ def malformed_header(rng):
     elif r < 0.65:  # identifier with another number of bars
         toks[0] = rng.choice(["P12345", "sp|P12345", "sp|P1|E_H|extra", "||", "sp||E", "|", "REV__sp|P1|E_H", "a|b|c|d|e"])
     elif r < 0.78:  # PE that is not one digit
-        toks = [("PE=" + rng.choice(["", "x", "12", "07", "1a", "٣"[:0] + "9"])) if t.startswith("PE=") else t for t in toks]
+        pe = rng.choice(["", "x", "12", "07", "1a", "9", "+1", "-1", "1_0", "1\t", "\t2", "٣", "１２", "+_1", "1_", "_1", "1__0", "-0", "\xa03\x85", "1\x1c", "\x1f1", "1٢", "-١", "0x1", "1e3"]) if rng.random() < 0.5 else gen_int_literal(rng)
+        toks = [("PE=" + pe) if t.startswith("PE=") else t for t in toks]
     elif r < 0.88:
         rng.shuffle(toks)
     else:
-        toks = [rng.choice(WORDS + ["OS=a", "GN=b", "PE=1", "sp|A|B", ""]) for _ in range(rng.randint(1, 6))]
+        toks = [rng.choice(WORDS + ["OS=a", "GN=b", "PE=1", "sp|A|B", "", "\ue000a", "GN=\ue000\x85"]) for _ in range(rng.randint(1, 6))]
     h = " ".join(toks)
     if rng.random() < 0.05:
         h = h.replace(" ", "\t", 1)
@@ -117,6 +169,7 @@ class P(Prop):
     thorough_cases = 100000
     chunk = 500
     rule = (
+        "kind=int (4%): int() literals and near misses; kind=charclass (corpus): every code point; "
         "kind=header: one header (70% composed from the UniProt grammar with isoform accessions, bracketed descriptions and the "
         "words OS/GN/PE, 30% malformed) through the real parse_* functions for each identifier rule; kind=fasta: 1-2 generated "
         "FASTA files with repeated identifiers, optional genes, multi-line sequences through get_protein_annotations (3 identifier "
@@ -124,12 +177,17 @@ class P(Prop):
         ">=1 description word (header) / >= 2 records and a repeated identifier or a multi-protein row (fasta); distinct by sha1"
     )
     assumptions = [
-        "generated files use \\n line ends and ASCII blanks; PE fields are ASCII digits or rejected by int() (Python's int() also accepts signs, underscores and non-ASCII digits, which the generator never emits)",
+        "generated files use \\n line ends (a trailing \\r is generated; no \\r or \\n INSIDE a line: the model takes the file as its list of lines) and are read as UTF-8; "
+        "Python's white space (str.isspace: 29 code points) and int() literals (white space, sign, decimal digits of every script, single underscores) are modelled for "
+        "CPython 3.12 / Unicode 15.0 and compared with the running interpreter over every code point (kind=charclass) and on generated literals (kind=int, PE fields, line ends); "
+        "lone surrogates cannot occur in a UTF-8 file and are not generated",
         "counts/len(annotations) > 0.5 in double precision equals 2*counts > len for the generated sizes",
     ]
 
     # ------------------------------------------------------------------ generation
     def gen_case(self, rng, tier):
+        if rng.random() < 0.04:
+            return {"kind": "int", "s": gen_int_literal(rng, blank_ok=True)}
         if rng.random() < 0.6:
             if rng.random() < 0.7:
                 f = gen_fields(rng)
@@ -164,16 +222,30 @@ class P(Prop):
                 pool.append(g)
                 seq = "".join(rng.choice(AAS) for _ in range(rng.randint(0, 30)))
                 width = rng.choice([5, 60])
+                inner = 0
                 lines = [seq[a : a + width] for a in range(0, len(seq), width)] or ([""] if rng.random() < 0.5 else [])
                 if rng.random() < 0.15:
                     lines = [l + rng.choice([" ", "\t", "  "]) for l in lines]
+                elif rng.random() < 0.03:
+                    # Python's rstrip() strips every str.isspace character (NBSP, NEL, FS..US, the Unicode blanks, \r, \v, \f);
+                    # white space that is not at the end of the line stays and counts
+                    new = []
+                    for l in lines:
+                        lead = rng.choice(TRAIL_WS) if rng.random() < 0.2 and l else ""
+                        mid = rng.choice(TRAIL_WS) if rng.random() < 0.15 and len(l) >= 2 else ""
+                        inner += len(lead) + len(mid)          # they are followed by a residue: not stripped, they count
+                        new.append(lead + l[: len(l) // 2] + mid + l[len(l) // 2 :] + trailing_ws(rng))
+                    lines = new or [trailing_ws(rng)]
                 hdr = compose(g) if wf or rng.random() < 0.7 else malformed_header(rng)
+                # inside a FILE a \r or \n ends the line (the model takes the file as its list of lines): other white space instead
+                hdr = hdr.replace("\r", "\x0c").replace("\n", "\x0b")
                 if not wf and "PE=" in hdr and rng.random() < 0.97:
                     # keep int() failures rare so that most malformed files are read completely
                     hdr = " ".join(t if not t.startswith("PE=") or t[3:].isdigit() and t[3:].isascii() else "PE=1" for t in hdr.split(" "))
-                recs.append({"fields": g if hdr == compose(g) else None, "header": hdr, "trail": rng.choice(["", "", "", " ", "\t"]), "seq_lines": lines, "seq_len": len(seq)})
+                trail = rng.choice(["", "", "", " ", "\t"]) if rng.random() < 0.97 else trailing_ws(rng, (1, 1, 2, 3))
+                recs.append({"fields": g if hdr == compose(g) else None, "header": hdr, "trail": trail, "seq_lines": lines, "seq_len": len(seq) + inner})
             if not wf and rng.random() < 0.3:
-                recs.insert(rng.randint(0, len(recs)), {"fields": None, "header": "", "trail": "", "seq_lines": ["AC"] if rng.random() < 0.5 else [], "seq_len": 0})
+                recs.insert(rng.randint(0, len(recs)), {"fields": None, "header": "", "trail": rng.choice(["", "", "", " ", "\xa0", "\x1f\u2003"]), "seq_lines": ["AC"] if rng.random() < 0.5 else [], "seq_len": 0})
             files.append(recs)
         cd = rng.random() < 0.4
         gl = rng.random() < 0.4
@@ -225,6 +297,16 @@ class P(Prop):
     def run_impl(self, case):
         from picked_group_fdr import protein_annotation as pa, digest
 
+        if case["kind"] == "int":
+            # the very call of parse_protein_existence_level on the PE field
+            try:
+                return {"value": int(case["s"])}
+            except ValueError as e:
+                if "invalid literal for int()" in str(e):
+                    return {"err": "bad_existence"}
+                raise
+        if case["kind"] == "charclass":
+            return self._charclass()
         if case["kind"] == "header":
             h = case["header"]
             parse_id = {"full": digest.parse_until_first_space, "accession": pa.parse_uniprot_id, "gene": pa.parse_gene_name_func}[case["rule"]]
@@ -278,6 +360,24 @@ class P(Prop):
             shutil.rmtree(d, ignore_errors=True)
 
     @staticmethod
+    def _charclass():
+        """the running interpreter's white space and decimal digits, code point by code point (lone surrogates excepted)"""
+
+        def ok(t):
+            try:
+                return int(t)
+            except ValueError:
+                return None
+
+        cps = [c for c in range(0x110000) if not 0xD800 <= c < 0xE000]
+        space = [c for c in cps if chr(c).isspace()]
+        rstripped = [c for c in cps if ("a" + chr(c)).rstrip() == "a"]
+        digits = [[c, v] for c in cps for v in [ok(chr(c))] if v is not None]
+        dset = {c for c, _ in digits}
+        int_space = [c for c in cps if c not in dset and ok("1" + chr(c)) == 1 and ok(chr(c) + "1") == 1 and c != 0x5F]
+        return {"space": space, "rstrip": rstripped, "int_space": int_space, "digits": digits}
+
+    @staticmethod
     def _ann(a):
         return {
             "id": a.id,
@@ -293,6 +393,10 @@ class P(Prop):
 
     # ------------------------------------------------------------------ the model
     def model_request(self, case, impl_out):
+        if case["kind"] == "int":
+            return {"op": "int", "s": case["s"]}
+        if case["kind"] == "charclass":
+            return {"op": "charclass"}
         if case["kind"] == "header":
             return {"op": "header", "header": case["header"], "rule": case["rule"], "length": case["length"]}
         return {
@@ -304,12 +408,48 @@ class P(Prop):
             "rows": case["rows"],
         }
 
+    @staticmethod
+    def _unescape(x):
+        """undo Driver/C19.lean:escapeLineBreaks (the engine splits the driver's output with str.splitlines(), which
+        also breaks at U+0085 / U+2028 / U+2029; the driver sends them as U+E000 + a / b / c, U+E000 itself doubled)"""
+        if isinstance(x, str):
+            if "\ue000" not in x:
+                return x
+            out, i = [], 0
+            while i < len(x):
+                if x[i] == "\ue000" and i + 1 < len(x):
+                    out.append({"\ue000": "\ue000", "a": "\x85", "b": "\u2028", "c": "\u2029"}.get(x[i + 1], x[i : i + 2]))
+                    i += 2
+                else:
+                    out.append(x[i])
+                    i += 1
+            return "".join(out)
+        if isinstance(x, list):
+            return [P._unescape(v) for v in x]
+        if isinstance(x, dict):
+            return {k: P._unescape(v) for k, v in x.items()}
+        return x
+
+    def model_view(self, case, resp, impl_out):
+        if case["kind"] in ("header", "fasta"):
+            return self._unescape(resp)
+        if case["kind"] == "charclass" and isinstance(resp, dict) and "space" in resp:
+            # `C19.rstrip` strips exactly `C19.isSpace`
+            return dict(resp, rstrip=resp["space"])
+        return resp
+
     # ------------------------------------------------------------------ the property, stated on the composed fields
     def oracle(self, case, impl_out):
         if not isinstance(impl_out, dict):
             return "no result"
         if "exc" in impl_out:
             return "implementation raised %s: %s" % (impl_out["exc"], impl_out.get("msg"))
+        if case["kind"] == "int":
+            return None                      # no composed field behind it: the correspondence with the model is the check
+        if case["kind"] == "charclass":
+            if impl_out.get("space") != impl_out.get("rstrip"):
+                return "str.rstrip() and str.isspace() disagree in this interpreter"
+            return None
         if case["kind"] == "header":
             f = case["fields"]
             if f is None:
@@ -381,6 +521,8 @@ class P(Prop):
 
     # ------------------------------------------------------------------ bookkeeping
     def nontrivial(self, case, impl_out):
+        if case["kind"] in ("int", "charclass"):
+            return False
         if case["kind"] == "header":
             return case["fields"] is not None and len(case["fields"]["desc"]) >= 1
         if not isinstance(impl_out, dict) or "annotations" not in impl_out:
@@ -392,8 +534,18 @@ class P(Prop):
 
     def features(self, case, impl_out):
         f = ["kind=" + case["kind"]]
+        if case["kind"] == "charclass":
+            return f
+        if case["kind"] == "int":
+            s_ = case["s"]
+            f.append("int:" + ("rejected" if isinstance(impl_out, dict) and "err" in impl_out else "accepted"))
+            f += self._literal_features("int", s_)
+            return f
         if case["kind"] == "header":
             f.append("header:" + ("composed" if case["fields"] else "malformed"))
+            if not case["fields"]:
+                for t in case["header"].split(" PE=")[1:2]:
+                    f += self._literal_features("pe", t.split(" ")[0])
             f.append("rule=" + case["rule"])
             if case["fields"]:
                 f.append("gene=" + ("yes" if case["fields"]["gene"] else "no"))
@@ -410,6 +562,13 @@ class P(Prop):
             f.append("wf" if case["wf"] else "malformed-file")
             if case["gene_level"]:
                 f.append("gene-level:" + ("err" if "err" in (impl_out or {}) else ("pseudo" if impl_out.get("pseudo") else "genes")))
+            lines_ = [l for recs in case["files"] for l in self.file_lines(recs)]
+            if any(l and ord(l[-1]) in PY_SPACE and ord(l[-1]) not in (0x20, 0x09) for l in lines_):
+                f.append("line-ends-in-non-ascii-or-control-white-space")
+            if any(l and ord(l[-1]) in (0x1C, 0x1D, 0x1E, 0x1F, 0x85, 0xA0) for l in lines_):
+                f.append("line-ends-in-FS..US/NEL/NBSP")
+            if any(any(ord(ch) in PY_SPACE and ord(ch) != 0x20 for ch in l[:-1].rstrip(" \t")) and not l.startswith(">") for l in lines_):
+                f.append("white-space-inside-sequence-line")
             if isinstance(impl_out, dict) and "annotations" in impl_out:
                 nrec = sum(len(r) for r in case["files"]) * (1 if case["contains_decoys"] else 2)
                 if len(impl_out["annotations"]) < nrec:
@@ -422,7 +581,29 @@ class P(Prop):
                 f.append("err=" + impl_out["err"])
         return f
 
+    @staticmethod
+    def _literal_features(tag, t):
+        f = []
+        if any(ord(ch) > 127 and ch.isdecimal() for ch in t):
+            f.append(tag + ":non-ascii-digit")
+        if "_" in t:
+            f.append(tag + ":underscore")
+        if t[:1] in "+-" and t[:1]:
+            f.append(tag + ":sign")
+        if any(ord(ch) in PY_SPACE for ch in t):
+            f.append(tag + ":white-space")
+        if any(0x1C <= ord(ch) <= 0x1F for ch in t):
+            f.append(tag + ":FS..US")
+        return f
+
     def shrink(self, case):
+        if case["kind"] == "charclass":
+            return
+        if case["kind"] == "int":
+            t = case["s"]
+            for i in range(len(t)):
+                yield dict(case, s=t[:i] + t[i + 1 :])
+            return
         if case["kind"] == "header":
             f = case["fields"]
             if f is not None:
